@@ -104,6 +104,49 @@ class Canon(ast.NodeTransformer):
                         return node.value.args[pos.index(prm)]
         return node
 
+    def visit_Call(self, node: ast.Call):
+        h = self._getter(node)
+        if h is not None and self.depth < 8:
+            f, ret = h
+            params = [p for p in f.positional_params if p not in ("self", "cls")]
+            sub = dict(self.subst_params)
+            ok = len(node.args) <= len(params) and not any(isinstance(a, ast.Starred) for a in node.args)
+            if ok:
+                for p, a in zip(params, node.args):
+                    sub[p] = self.visit(copy.deepcopy(a))
+                for kw in node.keywords:
+                    if kw.arg is None or kw.arg not in params:
+                        ok = False
+                        break
+                    sub[kw.arg] = self.visit(copy.deepcopy(kw.value))
+            if ok and all(p in sub for p in params):
+                inner = Canon(self.I, f, "", self.depth + 1, sub)
+                return inner.visit(copy.deepcopy(ret))
+        return self.generic_visit(node)
+
+    def _getter(self, call: ast.Call):
+        """(function, returned expression) when the call is to a repository 'getter': a function whose body is
+        only guards that raise and one final `return <expr>` - its result is that expression over the arguments."""
+        fn = call.func
+        f = None
+        if isinstance(fn, ast.Attribute) and isinstance(fn.value, ast.Name) and fn.value.id in ("cls", "self") and self.f.cls is not None:
+            f = self.f.cls.find_method(fn.attr)
+        elif isinstance(fn, ast.Name):
+            d = self.I.prog.resolve_expr(self.f.module, fn)
+            if d is not None and d.kind == "func":
+                f = d.obj
+        if f is None or isinstance(f.node, ast.AsyncFunctionDef) or f is self.f:
+            return None
+        body = list(f.node.body)
+        if body and isinstance(body[0], ast.Expr) and isinstance(body[0].value, ast.Constant):
+            body = body[1:]
+        if not body or not isinstance(body[-1], ast.Return) or body[-1].value is None:
+            return None
+        for st in body[:-1]:
+            if not (isinstance(st, ast.If) and not st.orelse and len(st.body) == 1 and isinstance(st.body[0], ast.Raise)):
+                return None
+        return f, body[-1].value
+
     def _repo_class(self, fn: ast.expr) -> ClassInfo | None:
         d = self.I.prog.resolve_expr(self.f.module, fn) if isinstance(fn, (ast.Name, ast.Attribute)) else None
         if d is not None and d.kind == "class":
@@ -124,3 +167,30 @@ def call_args(call: ast.Call, params: list[str], defaults: dict[str, str] | None
         if kw.arg:
             out[kw.arg] = kw.value
     return out
+
+
+def truth3(cn: Canon, e: ast.expr, assume: dict[str, bool]) -> bool | None:
+    """Three-valued truth of a test under assumptions about canonical atoms (`In.child_id == 255` -> True ...).
+
+    Understands ==/!= with either operand order, `not`, and/or, and a bare atom."""
+    if isinstance(e, ast.UnaryOp) and isinstance(e.op, ast.Not):
+        v = truth3(cn, e.operand, assume)
+        return None if v is None else not v
+    if isinstance(e, ast.BoolOp):
+        vals = [truth3(cn, v, assume) for v in e.values]
+        if isinstance(e.op, ast.And):
+            if any(v is False for v in vals):
+                return False
+            return True if all(v is True for v in vals) else None
+        if any(v is True for v in vals):
+            return True
+        return False if all(v is False for v in vals) else None
+    if isinstance(e, ast.Compare) and len(e.ops) == 1 and isinstance(e.ops[0], (ast.Eq, ast.NotEq, ast.Is, ast.IsNot)):
+        a, b = cn.canon(e.left), cn.canon(e.comparators[0])
+        neg = isinstance(e.ops[0], (ast.NotEq, ast.IsNot))
+        for k in (f"{a} == {b}", f"{b} == {a}"):
+            if k in assume:
+                return assume[k] != neg
+        return None
+    t = cn.canon(e)
+    return assume.get(t)
